@@ -16,6 +16,7 @@ spelling, the analysed module is first rewritten, in memory, by transformations 
   N4  new pure temporaries     a local the pinned function does not have, bound once to a call-free expression and read only afterwards in
                                the same block, with nothing it reads rebound or changed in place in between, is replaced by the
                                expression (copy propagation): `grid = self.__hdr; x = grid['nx']` is `x = self.__hdr['nx']`
+  N5  new accumulation loops   `X = []; for T in IT: X.append(E)` is `X = [E for T in IT]` where a comprehension of the pinned function was unrolled
   N3  renamed locals           locals of a function are renamed toward the names the pinned function uses for them.  The pairing is
                                found by aligning the statements of both versions (difflib over statement shapes with locals
                                abstracted) and voting; it is *applied* only if it is injective and the new name occurs nowhere in the
@@ -765,6 +766,27 @@ class Inliner(object):
                         self.inlined += 1
                     except NotInlinable as e:
                         self.failed.append((q, str(e)))
+            if not done and isinstance(st, (ast.Assign, ast.AugAssign, ast.Expr, ast.Return)) and st.value is not None:
+                # a statement helper called inside the expression: if it is the first call the statement evaluates, bind its result to
+                # a temporary just before the statement (same order of evaluation) and inline that
+                first = _first_call(st.value)
+                r = self.resolve(first, cls) if first is not None and first is not st.value else None
+                if r is not None and self.helpers[r[0]][0] is not caller and self.helpers[r[0]][3] == 'stmt' \
+                        and as_expression(_body_sans_doc(self.helpers[r[0]][0])) is None:
+                    q, recv = r
+                    tmp = '%s_result' % self.helpers[q][0].name.strip('_')
+                    taken = all_ids(caller)
+                    while tmp in taken:
+                        tmp += '_'
+                    hoisted = ast.copy_location(ast.Assign(targets=[ast.Name(id=tmp, ctx=ast.Store())], value=first, lineno=st.lineno), st)
+                    try:
+                        new = self.stmt_inline(hoisted, first, q, recv, caller)
+                        _replace_node(st, first, ast.copy_location(ast.Name(id=tmp, ctx=ast.Load()), first))
+                        stmts[i:i] = new
+                        self.inlined += 1
+                        done = True
+                    except NotInlinable as e:
+                        self.failed.append((q, str(e)))
             if done:
                 continue        # re-examine the spliced statements (helpers calling helpers)
             # expression helpers anywhere in the statement's own expressions
@@ -902,6 +924,43 @@ def _live_after(caller, st):
                 live.add(name)
                 break
     return live - _target_names(st)
+
+
+def _first_call(e):
+    """the first Call node that evaluating expression e completes (None when that cannot be told: a conditional part comes first)"""
+    if isinstance(e, ast.Call):
+        for sub in [e.func] + list(e.args) + [k.value for k in e.keywords]:
+            c = _first_call(sub)
+            if c is not None:
+                return c
+            if _contains([sub], ast.Call):
+                return None
+        return e
+    if isinstance(e, (ast.IfExp, ast.BoolOp, ast.Lambda, ast.ListComp, ast.SetComp, ast.DictComp, ast.GeneratorExp)):
+        if isinstance(e, (ast.IfExp,)):
+            return _first_call(e.test) if _contains([e.test], ast.Call) else None
+        if isinstance(e, ast.BoolOp):
+            return _first_call(e.values[0]) if _contains([e.values[0]], ast.Call) else None
+        return None
+    for sub in ast.iter_child_nodes(e):
+        if isinstance(sub, ast.expr):
+            c = _first_call(sub)
+            if c is not None:
+                return c
+            if _contains([sub], ast.Call):
+                return None
+    return None
+
+
+def _replace_node(root, old, new):
+    for n in ast.walk(root):
+        for f, v in ast.iter_fields(n):
+            if v is old:
+                setattr(n, f, new)
+            elif isinstance(v, list):
+                for i, x in enumerate(v):
+                    if x is old:
+                        v[i] = new
 
 
 def _always_terminates(body):
@@ -1187,6 +1246,75 @@ def propagate_new_temporaries(fn, pinfn):
     return done
 
 
+# ------------------------------------------------------------------------------------------------- N5: new accumulation loops
+def loops_to_comprehensions(fn, pinfn):
+    """`X = []` directly followed by `for T in IT: X.append(E)` (optionally under one `if C:` without else) is the list
+    comprehension `X = [E for T in IT if C]`, provided the loop variables are not read afterwards and E, IT, C do not mention X.
+    Only applied where the function has more for-loops and fewer list comprehensions than its pinned version (a comprehension was
+    unrolled), so loops the pinned code itself is written with stay loops."""
+    if pinfn is None or uses_textual_names(fn):
+        return 0
+
+    def count(f, kind):
+        return sum(1 for n in ast.walk(f) if isinstance(n, kind))
+    if not (count(fn, ast.For) > count(pinfn, ast.For) and count(fn, ast.ListComp) < count(pinfn, ast.ListComp)):
+        return 0
+    pin_loops = set(ast.unparse(n.iter) for n in ast.walk(pinfn) if isinstance(n, ast.For))
+    done = 0
+
+    def visit(body):
+        nonlocal done
+        i = 0
+        while i + 1 < len(body):
+            a, b = body[i], body[i + 1]
+            ok = isinstance(a, ast.Assign) and len(a.targets) == 1 and isinstance(a.targets[0], ast.Name) and isinstance(a.value, ast.List) and not a.value.elts \
+                and isinstance(b, ast.For) and not b.orelse and len(b.body) == 1 and ast.unparse(b.iter) not in pin_loops
+            if ok:
+                x = a.targets[0].id
+                inner = b.body[0]
+                cond = None
+                if isinstance(inner, ast.If) and not inner.orelse and len(inner.body) == 1:
+                    cond, inner = inner.test, inner.body[0]
+                ok = isinstance(inner, ast.Expr) and isinstance(inner.value, ast.Call) and isinstance(inner.value.func, ast.Attribute) and inner.value.func.attr == 'append' \
+                    and isinstance(inner.value.func.value, ast.Name) and inner.value.func.value.id == x and len(inner.value.args) == 1 and not inner.value.keywords
+                if ok:
+                    elt = inner.value.args[0]
+                    mention = [n for part in [elt, b.iter] + ([cond] if cond is not None else []) for n in ast.walk(part) if isinstance(n, ast.Name) and n.id == x]
+                    tnames = set(n.id for n in ast.walk(b.target) if isinstance(n, ast.Name))
+                    rebound = set()
+                    for s2 in body[i + 2:]:
+                        for c_ in ast.walk(s2):
+                            if isinstance(c_, (ast.ListComp, ast.SetComp, ast.DictComp, ast.GeneratorExp)):
+                                tg = set(x_.id for g_ in c_.generators for x_ in ast.walk(g_.target) if isinstance(x_, ast.Name))
+                                rebound |= set(id(x_) for x_ in ast.walk(c_) if isinstance(x_, ast.Name) and x_.id in tg)
+                    later = [n for s2 in body[i + 2:] for n in ast.walk(s2) if isinstance(n, ast.Name) and n.id in tnames and isinstance(n.ctx, ast.Load) and id(n) not in rebound]
+                    if not mention and not later and not _contains([elt], (ast.Yield, ast.YieldFrom, ast.Await)):
+                        comp = ast.ListComp(elt=elt, generators=[ast.comprehension(target=b.target, iter=b.iter, ifs=[cond] if cond is not None else [], is_async=0)])
+                        new = ast.copy_location(ast.Assign(targets=a.targets, value=ast.copy_location(comp, b), lineno=b.lineno), b)
+                        body[i:i + 2] = [new]
+                        done += 1
+                        continue
+            for fld in ('body', 'orelse', 'finalbody'):
+                sub = getattr(a, fld, None)
+                if isinstance(sub, list) and sub and isinstance(sub[0], ast.stmt) and not isinstance(a, SCOPES):
+                    visit(sub)
+            for h in getattr(a, 'handlers', []) or []:
+                visit(h.body)
+            i += 1
+        if body:
+            a = body[-1]
+            for fld in ('body', 'orelse', 'finalbody'):
+                sub = getattr(a, fld, None)
+                if isinstance(sub, list) and sub and isinstance(sub[0], ast.stmt) and not isinstance(a, SCOPES):
+                    visit(sub)
+            for h in getattr(a, 'handlers', []) or []:
+                visit(h.body)
+    visit(fn.body)
+    if done:
+        ast.fix_missing_locations(fn)
+    return done
+
+
 # ----------------------------------------------------------------------------------------------------------------------- driver
 def normalize(relpath, text, tree):
     """rewrite `tree` (parsed from `text`) in place; -> statistics dict (empty when nothing was done)"""
@@ -1209,7 +1337,7 @@ def normalize(relpath, text, tree):
         stats['not_inlined'] = sorted(set('%s (%s)' % f for f in inl.failed))
     pfun = index_functions(pin)
     cfun = index_functions(tree)
-    nl = nr = nt = 0
+    nl = nr = nt = nc = 0
     for q, (fn, body, cls) in cfun.items():
         p = pfun.get(q)
         if p is None:
@@ -1217,11 +1345,14 @@ def normalize(relpath, text, tree):
         if ast.dump(fn) == ast.dump(p[0]):
             continue
         nl += inline_local_lambdas(fn, p[0])
+        nc += loops_to_comprehensions(fn, p[0])
         nt += propagate_new_temporaries(fn, p[0])
         m = rename_toward(fn, p[0])
         nr += len(m)
     if nl:
         stats['local_helpers'] = nl
+    if nc:
+        stats['comprehensions'] = nc
     if nt:
         stats['temporaries'] = nt
     if nr:
